@@ -75,7 +75,8 @@ Definition all_kw : list kw :=
 Definition keyword_of (t : list N) : option kw := find (fun k => bytes_eqb t (kw_text k)) all_kw.
 
 (* ---- raw tokens ------------------------------------------------------------------------------ *)
-Inductive terr := EBrace | EKeyword | EChar (c : N).
+(* the errors of next_token; the keyword errors carry the text accumulated in tps_text *)
+Inductive terr := EBrace (text : list N) | EKeyword (text : list N) | EChar (c : N).
 Inductive rtok :=
   | RNl (opt : bool)
   | ROption
@@ -92,10 +93,10 @@ Fixpoint scan (m : mode) (opt : bool) (l : list N) {struct l} : list rtok :=
   | [] => match m with
           | MNormal | MComment => [REof]
           | MWord acc => [RWord (rev acc) opt; REof]
-          | MKw _ => [RErr EBrace]                           (* missing closing brace of keyword *)
+          | MKw acc => [RErr (EBrace (rev acc))]             (* missing closing brace of keyword *)
           end
   | c :: r =>
-    let normal :=                                            (* the main switch of next_token on tps_char = c *)
+    let normal (_ : unit) :=                                 (* the main switch of next_token on tps_char = c *)
       if c =? 10 then RNl opt :: scan MNormal false r
       else if c =? 33 then scan MComment opt r                (* ! *)
       else if c =? 35 then ROption :: scan MNormal true r     (* # *)
@@ -104,20 +105,43 @@ Fixpoint scan (m : mode) (opt : bool) (l : list N) {struct l} : list rtok :=
       else if is_space c then scan MNormal opt r
       else [RErr (EChar c)] in
     match m with
-    | MNormal => normal
+    | MNormal => normal tt
     | MComment => if c =? 10 then RNl opt :: scan MNormal false r else scan MComment opt r
-    | MWord acc => if is_in_word c then scan (MWord (c :: acc)) opt r else RWord (rev acc) opt :: normal
+    | MWord acc => if is_in_word c then scan (MWord (c :: acc)) opt r else RWord (rev acc) opt :: normal tt
     | MKw acc =>
         if c =? 93 then match keyword_of (rev acc) with
                         | Some k => RKw k :: scan MNormal opt r
-                        | None => [RErr EKeyword]             (* unknown keyword *)
+                        | None => [RErr (EKeyword (rev acc))]  (* unknown keyword *)
                         end
-        else if c =? 10 then [RErr EBrace]
+        else if c =? 10 then [RErr (EBrace (rev acc))]
         else scan (MKw (c :: acc)) opt r
     end
   end.
 
 Definition tokens (l : list N) : list rtok := scan MNormal false (map upcase l).
+
+(* ---- the text buffer (start_text / add_char / end_text) ------------------------------------------ *)
+(* add_char: "if (tps_text_length + 1 >= tps_text_allocation) allocation *= 2", then text[length++] = c.
+   A state is (length, allocation); start_text resets the length, the allocation is kept for the
+   whole load (initially VNADATA_LOAD_INITIAL_TEXT_ALLOCATION = 64). *)
+Definition initial_text_allocation : N := 64.
+Definition add_char (st : N * N) : N * N :=
+  let (len, alloc) := st in
+  if alloc <=? len + 1 then (len + 1, 2 * alloc) else (len + 1, alloc).
+Fixpoint add_chars (n : nat) (st : N * N) : N * N :=
+  match n with O => st | S k => add_chars k (add_char st) end.
+(* allocation after a text of n characters was accumulated, starting from allocation a *)
+Definition alloc_after_text (a : N) (n : nat) : N := snd (add_chars n (0, a)).
+Definition rtok_text_length (x : rtok) : nat :=
+  match x with
+  | RWord t _ => length t
+  | RKw k => length (kw_text k)
+  | RErr (EBrace t) | RErr (EKeyword t) => length t
+  | _ => O
+  end.
+(* tps_text_allocation when the stream has been read to its end *)
+Definition final_allocation (r : list rtok) : N :=
+  fold_left (fun a x => alloc_after_text a (rtok_text_length x)) r initial_text_allocation.
 
 (* ---- numbers --------------------------------------------------------------------------------- *)
 (* a C double as far as the loader can tell: an exact rational, an infinity or a NaN *)
